@@ -35,7 +35,7 @@ Roots = FrozenSet[str]
 EMPTY: Roots = frozenset()
 
 VIEW_METHODS = {'t', 'view', 'view_as', 'reshape', 'expand', 'expand_as', 'permute', 'transpose', 'movedim', 'squeeze', 'unsqueeze',
-                'flatten', 'diagonal', 'as_strided', 'detach', 'unbind', 'narrow', 'select', 'contiguous', 'requires_grad_', 'real', 'chunk', 'split', 'unfold'}
+                'flatten', 'diagonal', 'as_strided', 'detach', 'unbind', 'narrow', 'select', 'contiguous', 'real', 'chunk', 'split', 'unfold'}
 ELEMENT_METHODS = {'values', 'keys', 'items', 'get', 'setdefault', 'pop', 'popitem', '__getitem__', '__iter__', 'unbind', 'chunk', 'split', 'copy'}
 VIEW_ATTRS = {'T', 'mT', 'H', 'data', 'real', 'imag', 'grad', 'physical'}
 VIEW_FUNCS = {'torch.as_strided', 'torch.as_tensor', 'torch.squeeze', 'torch.unsqueeze', 'torch.transpose', 'torch.movedim', 'torch.flatten',
@@ -52,8 +52,36 @@ SCALAR_FUNCS = {'len', 'int', 'float', 'bool', 'str', 'repr', 'isinstance', 'has
 CONT_KINDS = ('dict', 'list', 'set', 'tuple')
 
 
+def _parse(x: str):
+    """'P:n' | 'P:n.*' | 'P:n.f' | 'P:n.f.*'  ->  (kind, name, field or None, deep)"""
+    kind, rest = x.split(':', 1)
+    deep = rest.endswith('.*')
+    if deep:
+        rest = rest[:-2]
+    if kind == 'G':
+        return kind, rest, None, deep
+    name, _, fld = rest.partition('.')
+    return kind, name, (fld or None), deep
+
+
 def star(r: Roots) -> Roots:
+    """Roots of what is reachable from objects with roots r: 'P:x' -> 'P:x.*', 'P:x.f' -> 'P:x.f.*'; deep roots stay."""
     return frozenset(x if x.endswith('.*') else x + '.*' for x in r)
+
+
+def field_roots(r: Roots, f: str) -> Roots:
+    """Roots of attribute f of objects with roots r: 'P:x' -> 'P:x.f'; 'P:x.g' -> 'P:x.g.*' (paths are cut at one attribute)."""
+    out = set()
+    for x in r:
+        if x.endswith('.*'):
+            out.add(x)
+            continue
+        kind, name, fld, _ = _parse(x)
+        if kind == 'G' or fld is not None:
+            out.add(x + '.*')
+        else:
+            out.add(f"{x}.{f}")
+    return frozenset(out)
 
 
 @dataclass(frozen=True)
@@ -64,10 +92,33 @@ class Val:
     eimm: bool = False                      # container whose elements are immutable
     fn: Optional[Tuple] = None              # FuncInfo values (lambda / nested def / repo function)
     parts: Optional[Tuple["Val", ...]] = None
+    fields: Optional[Tuple[Tuple[str, "Val"], ...]] = None   # per-attribute values of a fresh repo object built in this function
 
     @property
     def scalar(self) -> bool:
         return self.kind == 'imm'
+
+    def field(self, name: str) -> Optional["Val"]:
+        if self.fields is None:
+            return None
+        for k, v in self.fields:
+            if k == name:
+                return v
+        return None
+
+    def with_field(self, name: str, v: "Val") -> "Val":
+        d = dict(self.fields or ())
+        d[name] = v.flat()
+        return Val(self.id, self.content, self.kind, self.eimm, self.fn, self.parts, tuple(sorted(d.items())))
+
+    def flat(self) -> "Val":
+        """Forget the per-field structure (merge it into content)."""
+        if self.fields is None:
+            return self
+        c = self.content
+        for _, v in self.fields:
+            c = c | v.id | v.reach()
+        return Val(self.id, c, self.kind, self.eimm, self.fn, self.parts, None)
 
     def join(self, o: "Val") -> "Val":
         parts = None
@@ -76,21 +127,27 @@ class Val:
         fn = None
         if self.fn or o.fn:
             fn = tuple(dict.fromkeys((self.fn or ()) + (o.fn or ())))
-        if self.kind == o.kind:
-            k = self.kind
-        elif self.kind == 'imm' and not self.fn:
-            k = o.kind if False else None
-        else:
-            k = None
-        return Val(self.id | o.id, self.content | o.content, k, self.eimm and o.eimm, fn, parts)
+        k = self.kind if self.kind == o.kind else None
+        if self.fields is not None and o.fields is not None:
+            a, b = dict(self.fields), dict(o.fields)
+            fl = tuple(sorted((n, (a[n].join(b[n]) if n in a and n in b else a.get(n, b.get(n)))) for n in set(a) | set(b)))
+            return Val(self.id | o.id, self.content | o.content, k, self.eimm and o.eimm, fn, parts, fl)
+        x, y = self.flat(), o.flat()
+        return Val(x.id | y.id, x.content | y.content, k, x.eimm and y.eimm, fn, parts, None)
 
     def reach(self) -> Roots:
         """Roots of mutable things obtained by looking inside this value."""
         if self.kind == 'imm' or self.eimm:
             return EMPTY
-        return star(self.id) | self.content
+        r = star(self.id) | self.content
+        if self.fields is not None:
+            for _, v in self.fields:
+                r = r | v.id | v.reach()
+        return r
 
     def all(self) -> Roots:
+        if self.fields is not None:
+            return self.id | self.reach()
         return self.id | self.content
 
 
@@ -196,19 +253,33 @@ class Effects:
             if not changed:
                 break
 
+    @staticmethod
+    def _index_like_params(f: FuncInfo) -> Set[str]:
+        """Unannotated parameters used as numbers: compared with a numeric constant, or used as a subscript index."""
+        out: Set[str] = set()
+        for n in own_nodes(f.node):
+            if isinstance(n, ast.Compare) and isinstance(n.left, ast.Name) and len(n.comparators) == 1 and isinstance(n.comparators[0], ast.Constant) \
+                    and isinstance(n.comparators[0].value, (int, float)) and not isinstance(n.comparators[0].value, bool):
+                out.add(n.left.id)
+            elif isinstance(n, ast.Subscript) and isinstance(n.slice, ast.Name):
+                out.add(n.slice.id)
+        return out
+
     def initial_env(self, f: FuncInfo) -> Dict[str, Val]:
         env: Dict[str, Val] = {}
         a = f.node.args
+        numeric = self._index_like_params(f)
         for p in f.param_names():
             k, eimm = self.types.param_kind(f, p)
             if a.vararg and p == a.vararg.arg:
                 ek, _ = self.types.ann_kind(a.vararg.annotation)
-                env[p] = mk(frozenset({f"P:{p}"}), frozenset({f"P:{p}.*"}), 'tuple', ek == 'imm')
+                env[p] = mk(EMPTY, frozenset({f"P:{p}.*"}), 'tuple', ek == 'imm')
                 continue
             if a.kwarg and p == a.kwarg.arg:
-                env[p] = mk(frozenset({f"P:{p}"}), frozenset({f"P:{p}.*"}), 'dict', False)
+                # **kwargs is a new dict built for this call from the caller's keyword arguments
+                env[p] = mk(EMPTY, frozenset({f"P:{p}.*"}), 'dict', False)
                 continue
-            if k == 'imm':
+            if k == 'imm' or (k is None and f.param_annotation(p) is None and p in numeric and p != f.self_name()):
                 env[p] = IMM
             else:
                 env[p] = mk(frozenset({f"P:{p}"}), frozenset({f"P:{p}.*"}), k, eimm)
@@ -272,14 +343,28 @@ class _Ctx:
         for r in roots:
             self.S.writes.add(Effect(r, kind, self.f.fq(), loc, text))
 
-    def grow(self, target: Val, added: Roots, env: Dict[str, Val], name: Optional[str], record: bool) -> None:
+    def grow(self, target: Val, added: Roots, env: Dict[str, Val], name: Optional[str], record: bool, fld: Optional[str] = None,
+             owner_name: Optional[str] = None, owner_field: Optional[str] = None) -> None:
+        """The object `target` now also holds objects with roots `added`.
+        name: local name bound to the target (its content is updated in place);
+        fld: the growth concerns attribute `fld` of the target (attribute store);
+        owner_name/owner_field: the target is the value of env[owner_name].<owner_field> (a container held in a field of a local object)."""
         if not added or target.eimm or target.kind == 'imm':
             return
         if name is not None and name in env:
             v = env[name]
-            env[name] = Val(v.id, v.content | added, v.kind, v.eimm, v.fn, v.parts)
+            if fld is not None and v.fields is not None:
+                fv = v.field(fld) or FRESH
+                env[name] = v.with_field(fld, Val(fv.id, fv.content | added, fv.kind, False, fv.fn, fv.parts))
+            else:
+                env[name] = Val(v.id, v.content | added, v.kind, v.eimm, v.fn, v.parts, v.fields)
+        if owner_name is not None and owner_name in env and env[owner_name].fields is not None and owner_field is not None:
+            v = env[owner_name]
+            fv = v.field(owner_field) or FRESH
+            env[owner_name] = v.with_field(owner_field, Val(fv.id, fv.content | added, fv.kind, False, fv.fn, fv.parts))
         if record:
-            for r in target.id:
+            keys = field_roots(target.id, fld) if fld is not None else target.id
+            for r in keys:
                 self.S.growth[r] = self.S.growth.get(r, EMPTY) | added
 
     # ------------------------------------------------------------------ statements
@@ -361,6 +446,10 @@ class _Ctx:
     def element(self, it: Val) -> Val:
         if it.kind == 'imm' or it.eimm:
             return IMM
+        if it.kind and it.kind.startswith('obj:'):
+            vk, ve, known = self.types.mapping_value_kind(it.kind)
+            if known:
+                return IMM        # iterating a mapping yields its keys (hashable)
         if it.parts is not None and it.parts:
             out = it.parts[0]
             for p in it.parts[1:]:
@@ -372,19 +461,22 @@ class _Ctx:
     def dunder_call(self, st: ast.AugAssign, cur: Val, val: Val, env, record: bool) -> None:
         name = {ast.Add: '__iadd__', ast.Sub: '__isub__', ast.Mult: '__imul__', ast.Div: '__itruediv__'}.get(type(st.op))
         if name:
-            self.special_method(cur, name, [val], st, env, record)
+            self.special_method(cur, name, [val], st, env, record, recv_name=st.target.id if isinstance(st.target, ast.Name) else None)
 
-    def special_method(self, owner: Val, name: str, args: List[Val], node: ast.AST, env, record: bool) -> None:
+    def special_method(self, owner: Val, name: str, args: List[Val], node: ast.AST, env, record: bool, recv_name: Optional[str] = None) -> bool:
         if owner.kind in CONT_KINDS + ('tensor', 'imm'):
-            return
+            return False
         ci = self.types.class_of(owner.kind)
         cands = [self.prog.find_method(ci, name)] if ci is not None else self.prog.methods_named(name)
+        done = False
         for m in [c for c in cands if c is not None]:
             pos = m.positional_params()
             bound = {pos[0]: owner}
             for p, a in zip(pos[1:], args):
                 bound[p] = a
-            self.apply_summary(m, bound, node, env, record, {})
+            self.apply_summary(m, bound, node, env, record, {pos[0]: recv_name} if recv_name else {})
+            done = True
+        return done
 
     def assign(self, t: ast.AST, v: Val, env: Dict[str, Val], record: bool, st: ast.AST, rebind_only: bool = False) -> None:
         if isinstance(t, ast.Name):
@@ -402,24 +494,34 @@ class _Ctx:
                         self.assign(e, elem, env, record, st)
         elif isinstance(t, ast.Attribute):
             owner = self.ev(t.value, env, record)
+            has_setter = False
             if not rebind_only:
                 self.write(owner, 'attribute store', st, record)
-                self.setter_call(t, owner, v, st, env, record)
+                has_setter = self.setter_call(t, owner, v, st, env, record)
             nm = t.value.id if isinstance(t.value, ast.Name) else None
-            self.grow(owner, v.all(), env, nm, record)
+            if nm is not None and nm in env and env[nm].fields is not None and not has_setter:
+                env[nm] = env[nm].with_field(t.attr, v)          # strong update of a fresh local object's attribute
+                if record:
+                    for r in field_roots(owner.id, t.attr):
+                        self.S.growth[r] = self.S.growth.get(r, EMPTY) | v.all()
+            elif not has_setter:
+                self.grow(owner, v.all(), env, nm, record, fld=t.attr)
         elif isinstance(t, ast.Subscript):
             owner = self.ev(t.value, env, record)
             self.ev(t.slice, env, record)
             self.write(owner, 'item store', st, record)
-            self.special_method(owner, '__setitem__', [FRESH, v], st, env, record)
+            handled = self.special_method(owner, '__setitem__', [FRESH, v], st, env, record,
+                                          recv_name=t.value.id if isinstance(t.value, ast.Name) else None)
             nm = t.value.id if isinstance(t.value, ast.Name) else None
-            self.grow(owner, v.all(), env, nm, record)
+            on, of = (t.value.value.id, t.value.attr) if isinstance(t.value, ast.Attribute) and isinstance(t.value.value, ast.Name) else (None, None)
+            if not (handled and owner.kind and owner.kind.startswith('obj:')):
+                self.grow(owner, v.all(), env, nm, record, owner_name=on, owner_field=of)
         elif isinstance(t, ast.Starred):
             self.assign(t.value, v, env, record, st)
 
-    def setter_call(self, t: ast.Attribute, owner: Val, v: Val, st, env, record) -> None:
+    def setter_call(self, t: ast.Attribute, owner: Val, v: Val, st, env, record) -> bool:
         if owner.kind in CONT_KINDS + ('tensor', 'imm'):
-            return
+            return False
         ci = self.types.class_of(owner.kind)
         classes = [ci] if ci is not None else list(self.prog.all_classes())
         done = set()
@@ -428,7 +530,9 @@ class _Ctx:
             if m is not None and m.fq() not in done:
                 done.add(m.fq())
                 pos = m.positional_params()
-                self.apply_summary(m, {pos[0]: owner, **({pos[1]: v} if len(pos) > 1 else {})}, st, env, record, {})
+                nm = t.value.id if isinstance(t.value, ast.Name) else None
+                self.apply_summary(m, {pos[0]: owner, **({pos[1]: v} if len(pos) > 1 else {})}, st, env, record, {pos[0]: nm} if nm else {})
+        return bool(done) and ci is not None
 
     # ------------------------------------------------------------------ expressions
     def ev(self, e: Optional[ast.AST], env: Dict[str, Val], record: bool) -> Val:
@@ -456,17 +560,24 @@ class _Ctx:
             k, eimm, known = self.types.attr_kind(e.attr, cname)
             if known and k == 'imm':
                 return IMM
+            fv = base.field(e.attr)
+            if fv is not None:
+                return fv
+            below = base.content if not base.id else EMPTY   # a fresh object whose per-attribute structure is unknown
             if e.attr == 'physical':
-                r = base.reach()
-                return mk(r, r, 'tensor')
+                r = field_roots(base.id, e.attr) | below
+                return mk(r, star(r), 'tensor')
             if base.kind == 'tensor' or (e.attr in VIEW_ATTRS and not known):
                 if e.attr in ('shape', 'dtype', 'device', 'ndim', 'requires_grad', 'is_leaf'):
                     return IMM
                 return mk(base.id, base.content, 'tensor')
             if e.attr in ('shape', 'dtype', 'device', 'ndim'):
                 return IMM
-            r = base.reach()
-            return mk(r, r, k if known else None, eimm if known else False)
+            r = field_roots(base.id, e.attr) | below
+            if base.fields is not None:
+                # an attribute that the constructor did not set explicitly: anything the object holds
+                r = r | base.reach()
+            return mk(r, star(r), k if known else None, eimm if known else False)
         if isinstance(e, ast.Subscript):
             base = self.ev(e.value, env, record)
             self.ev(e.slice, env, record)
@@ -640,6 +751,9 @@ class _Ctx:
                 return self.method_call(e, name, recv, argv, kwv, env, record)
         # ---- plain / module / class-qualified function
         targets = self.eng.res.resolve(self.f, e)
+        ctors = [t for t in targets if t.ctor_of is not None]
+        if ctors:
+            return self.construct(ctors[0].ctor_of, e, argv, kwv, env, record)
         repo = [t for t in targets if t.func is not None and t.certain]
         out: Optional[Val] = None
         for t in repo:
@@ -647,6 +761,84 @@ class _Ctx:
         if not repo:
             out = self.external(e, name, None, argv, kwv, env, record)
         return out or FRESH
+
+    def construct(self, ci: ClassInfo, e: ast.Call, argv: List[Val], kwv: Dict[str, Val], env, record: bool) -> Val:
+        """Constructor call: a fresh object whose attributes hold what the constructor stores in them."""
+        kind = f"obj:{ci.name}"
+        frozen = ci.name in self.types.frozen
+        init = self.prog.find_method(ci, '__init__')
+        post = self.prog.find_method(ci, '__post_init__') if ci.is_dataclass else None
+        obj = Val(kind=kind, fields=())
+        selfname = None
+        if init is not None:
+            t = Target(init, bound=True, ctor_of=None)
+            pos = init.positional_params()
+            selfname = pos[0] if pos else None
+            S = self.eng.summaries.get(init)
+            # effects of __init__ on the arguments (self is the fresh object)
+            self.repo_call(Target(init, bound=True), obj, e, argv, kwv, env, record)
+            if S is not None and selfname is not None and not frozen:
+                bound = self._bind_for(init, obj, e, argv, kwv)
+                for key, added in S.growth.items():
+                    kk, kn, fld, kdeep = _parse(key)
+                    if kk == 'P' and kn == selfname and fld is not None and not kdeep:
+                        mapped = frozenset().union(*[self.map_root(a, bound, None, env) for a in added]) if added else EMPTY
+                        k, eimm, known = self.types.attr_kind(fld, ci.name)
+                        obj = obj.with_field(fld, IMM if known and k == 'imm' else mk(mapped, mapped, k if known else None, eimm if known else False))
+                # attributes assigned in __init__ to fresh values do not show up as growth: record them as fresh
+                for n in own_nodes(init.node):
+                    tgt = None
+                    if isinstance(n, ast.Assign) and len(n.targets) == 1: tgt = n.targets[0]
+                    elif isinstance(n, ast.AnnAssign): tgt = n.target
+                    if isinstance(tgt, ast.Attribute) and isinstance(tgt.value, ast.Name) and tgt.value.id == selfname and obj.field(tgt.attr) is None:
+                        k, eimm, known = self.types.attr_kind(tgt.attr, ci.name)
+                        obj = obj.with_field(tgt.attr, IMM if known and k == 'imm' else mk(EMPTY, EMPTY, k if known else None, eimm if known else False))
+        elif ci.is_dataclass:
+            names: List[str] = []
+            for c in reversed(self.prog.mro(ci)):
+                for f in c.fields:
+                    if f not in names: names.append(f)
+            vals = dict(zip(names, argv))
+            for k_, v in kwv.items():
+                if k_ in names: vals[k_] = v
+            for f in names:
+                k, eimm, known = self.types.attr_kind(f, ci.name)
+                v = vals.get(f)
+                if known and k == 'imm':
+                    obj = obj.with_field(f, IMM)
+                elif v is not None:
+                    obj = obj.with_field(f, v if v.kind is not None or not known else Val(v.id, v.content, k, v.eimm or eimm, v.fn, v.parts, v.fields))
+                else:
+                    obj = obj.with_field(f, IMM if known and k == 'imm' else mk(EMPTY, EMPTY, k if known else None))
+        if frozen:
+            return IMM
+        if post is not None:
+            # __post_init__ may rebind attributes of self (views of what was passed): fold its growth into the fields
+            pos = post.positional_params()
+            S = self.eng.summaries.get(post)
+            if S is not None and pos:
+                bound = {pos[0]: obj}
+                self.apply_summary(post, bound, e, env, False, {})
+                for key, added in S.growth.items():
+                    kk, kn, fld, kdeep = _parse(key)
+                    if kk == 'P' and kn == pos[0] and fld is not None and not kdeep:
+                        mapped = frozenset().union(*[self.map_root(a, bound, None, env) for a in added]) if added else EMPTY
+                        fv = obj.field(fld) or FRESH
+                        if fv.kind != 'imm':
+                            obj = obj.with_field(fld, Val(fv.id | mapped, fv.content | mapped, fv.kind, False, fv.fn, fv.parts))
+        return obj
+
+    def _bind_for(self, g: FuncInfo, recv: Val, e: ast.Call, argv: List[Val], kwv: Dict[str, Val]) -> Dict[str, Val]:
+        pos = g.positional_params()
+        bound: Dict[str, Val] = {}
+        if pos:
+            bound[pos[0]] = recv
+        for p, a in zip(pos[1:], argv):
+            bound[p] = a
+        for k_, v in kwv.items():
+            if k_ and k_ in g.param_names():
+                bound[k_] = v
+        return bound
 
     @staticmethod
     def _join(a: Optional[Val], b: Val) -> Val:
@@ -784,14 +976,14 @@ class _Ctx:
         return self.apply_summary(g, bound, e, env, record, {}, closure_env=env if g.parent is self.f else None)
 
     def map_root(self, r: str, bound: Dict[str, Val], closure_env: Optional[Dict[str, Val]], env: Dict[str, Val]) -> Roots:
-        deep = r.endswith('.*')
-        base = r[:-2] if deep else r
-        kind, name = base.split(':', 1)
+        kind, name, fld, deep = _parse(r)
+        if kind == 'G':
+            return frozenset({r})
         if kind == 'P':
             v = bound.get(name)
             if v is None:
                 return EMPTY
-            return v.reach() if deep else v.id
+            return self._select(v, deep, fld)
         if kind == 'F':
             v = None
             if closure_env is not None and name in closure_env:
@@ -801,10 +993,27 @@ class _Ctx:
             elif name in self.locals:
                 v = FRESH
             else:
-                # captured from a function further out: stays a free variable of the caller
-                return frozenset({r})
-            return v.reach() if deep else v.id
+                return frozenset({r})      # captured from a function further out: stays a free variable of the caller
+            return self._select(v, deep, fld)
         return frozenset({r})
+
+    @staticmethod
+    def _select(v: Val, deep: bool, fld: Optional[str]) -> Roots:
+        """Caller roots denoted by a callee root on parameter value v:  v itself / below v / the object in v.fld / below v.fld."""
+        if v.kind == 'imm':
+            return EMPTY
+        if fld is None:
+            return v.reach() if deep else v.id
+        fv = v.field(fld)
+        if fv is not None:
+            return (star(fv.id) | fv.reach()) if deep else fv.id
+        base = field_roots(v.id, fld)
+        out = star(base) if deep else base
+        if not v.id:
+            out = out | v.content            # a fresh object whose per-attribute structure is unknown
+        if v.fields is not None:
+            out = out | v.reach()
+        return out
 
     def apply_summary(self, g: FuncInfo, bound: Dict[str, Val], node: ast.AST, env: Dict[str, Val], record: bool, argnames: Dict[str, str],
                       closure_env: Optional[Dict[str, Val]] = None) -> Val:
@@ -820,12 +1029,15 @@ class _Ctx:
             mapped = frozenset().union(*[self.map_root(a, bound, closure_env, env) for a in added]) if added else EMPTY
             if not mapped:
                 continue
-            base = root[:-2] if root.endswith('.*') else root
-            kind, pname = base.split(':', 1)
+            kind, pname, fld, _deep = _parse(root)
             if kind == 'P' and pname in argnames and argnames[pname] in env:
                 v = env[argnames[pname]]
                 if not v.eimm and v.kind != 'imm':
-                    env[argnames[pname]] = Val(v.id, v.content | mapped, v.kind, v.eimm, v.fn, v.parts)
+                    if fld is not None and v.fields is not None:
+                        fv = v.field(fld) or FRESH
+                        env[argnames[pname]] = v.with_field(fld, Val(fv.id, fv.content | mapped, fv.kind, False, fv.fn, fv.parts))
+                    else:
+                        env[argnames[pname]] = Val(v.id, v.content | mapped, v.kind, v.eimm, v.fn, v.parts, v.fields)
             if record:
                 for r in self.map_root(root, bound, closure_env, env):
                     self.S.growth[r] = self.S.growth.get(r, EMPTY) | mapped
@@ -836,8 +1048,15 @@ class _Ctx:
             idr = frozenset().union(*[self.map_root(r, bound, closure_env, env) for r in v.id]) if v.id else EMPTY
             cr = frozenset().union(*[self.map_root(r, bound, closure_env, env) for r in v.content]) if v.content else EMPTY
             parts = tuple(mapv(p) for p in v.parts) if v.parts is not None else None
-            return Val(idr, cr if not v.eimm else EMPTY, v.kind, v.eimm, v.fn, parts)
-        return mapv(S.ret)
+            fields = tuple((n, mapv(x)) for n, x in v.fields) if v.fields is not None else None
+            return Val(idr, cr if not v.eimm else EMPTY, v.kind, v.eimm, v.fn, parts, fields)
+        ret = S.ret
+        if ret.fields is None and ret.parts is None and len(ret.id) == 1:
+            r0 = next(iter(ret.id))
+            if r0.startswith('P:') and '.' not in r0 and r0[2:] in bound and bound[r0[2:]].fields is not None:
+                # the callee returns the very object it was given (`return self`): keep the caller's per-attribute view of it
+                return bound[r0[2:]]
+        return mapv(ret)
 
     def external(self, e: ast.Call, name: str, recv: Optional[Val], argv: List[Val], kwv: Dict[str, Val], env, record: bool) -> Val:
         dotted = '.'.join(attr_chain(e.func) or [name])
@@ -848,7 +1067,8 @@ class _Ctx:
             if name.endswith('_') and not name.endswith('__') and len(name) > 1:
                 self.write(recv, 'in-place method ' + name, e, record)
                 return recv
-            if name in CONTAINER_MUTATORS and recv.kind != 'tensor':
+            if name in CONTAINER_MUTATORS and recv.kind != 'tensor' and not (name == 'add' and len(argv) != 1) \
+                    and not (recv.kind and recv.kind.startswith('obj:') and name in ('add', 'update', 'pop', 'remove', 'sort', 'reverse', 'insert', 'extend', 'append', 'discard') and self.types.mapping_value_kind(recv.kind)[2] is False):
                 stmt_level = True
                 if name == 'add' and len(argv) == 1 and recv.kind not in ('set',):
                     stmt_level = isinstance(self.pm.get(id(e)), ast.Expr)
@@ -858,7 +1078,9 @@ class _Ctx:
                     self.write(recv, 'container mutator ' + name, e, record)
                     added = frozenset().union(*[a.all() if name in ('append', 'add', 'insert', 'setdefault') else a.reach() | a.content for a in allargs]) if allargs else EMPTY
                     nm = e.func.value.id if isinstance(e.func, ast.Attribute) and isinstance(e.func.value, ast.Name) else None
-                    self.grow(recv, added, env, nm, record)
+                    fv_ = e.func.value if isinstance(e.func, ast.Attribute) else None
+                    on, of = (fv_.value.id, fv_.attr) if isinstance(fv_, ast.Attribute) and isinstance(fv_.value, ast.Name) else (None, None)
+                    self.grow(recv, added, env, nm, record, owner_name=on, owner_field=of)
                     if name in ('pop', 'setdefault', 'popitem'):
                         extra = argv[-1].all() if name == 'setdefault' and len(argv) > 1 else EMPTY
                         if recv.eimm: return IMM if not extra else mk(extra, extra)
@@ -869,6 +1091,19 @@ class _Ctx:
             if name in ELEMENT_METHODS and recv.kind != 'tensor':
                 if recv.eimm:
                     return mk(EMPTY, EMPTY, 'list', True)
+                vk, ve, vknown = self.types.mapping_value_kind(recv.kind)
+                if vknown and name in ('values', 'items', 'get', 'pop', 'setdefault'):
+                    r = recv.reach()
+                    gi = self.prog.find_method(self.types.class_of(recv.kind), '__getitem__')
+                    if gi is not None:
+                        gv = self.apply_summary(gi, {gi.positional_params()[0]: recv}, e, env, False, {})
+                        r = gv.id | gv.reach()
+                    ev_ = IMM if vk == 'imm' else mk(r, r, vk, ve)
+                    if name == 'items':
+                        return Val(EMPTY, r, 'list', False, None, None) if vk == 'imm' else Val(EMPTY, r, 'list', False, None, (Val(EMPTY, r, 'tuple', False, None, (IMM, ev_)),))
+                    if name == 'values':
+                        return Val(EMPTY, r, 'list', False, None, (ev_,))
+                    return ev_
                 r = recv.reach()
                 if name == 'get' and len(argv) > 1:
                     r = r | argv[1].all()
